@@ -201,6 +201,8 @@ def loop_bound_ok(path, i, iv, N):
     if ("cmp", "<", iv, C(N)) in conds:
         return True
     if ("cmp", "!=", iv, C(N)) in conds and isinstance(iv, tuple) and iv[:1] == ("havoc",):
+        if any(e.kind == "COUNTER" and e.a == iv for e in path.events):
+            return True     # the engine's own iteration counter of a lockstep loop: starts at 0, one step per iteration
         name = iv[-1]
         init0 = any(e.kind == "DECL" and e.b == name and e.c == C(0) for e in path.events)
         step1 = any(e.kind == "STORE" and isinstance(e.a, tuple) and e.a[:1] == ("var",) and e.a[-1] == name and e.b == lin("+", iv, C(1)) for e in path.events)
@@ -251,3 +253,31 @@ def under_equalities(conds, t):
             return acc
         return x
     return sub(t)
+
+
+def erased_index(path, arg, is_container):
+    """if `arg` (the argument of an erase) is `container.begin() + I` (also through the iterator -> const_iterator conversion),
+    the index term I (casts stripped); else None"""
+    from .rules.ops import strip_casts
+    a0 = arg
+    for _ in range(4):
+        conv = next((e for e in path.events if e.kind == "CALL" and (e.extra or {}).get("ret") == a0 and short(e.a) in ("__normal_iterator", "__wrap_iter") and len(e.b) == 1), None)
+        if conv is None:
+            break
+        a0 = ((conv.extra or {}).get("argvals") or conv.b)[0]
+    if isinstance(a0, tuple) and a0[:1] == ("ucall",) and short(a0[2]) == "operator+" and len(a0[3]) == 1 and isinstance(a0[4], tuple) and \
+            mentions(a0[4], lambda x: isinstance(x, tuple) and x[:1] == ("ucall",) and short(x[2]) in ("begin", "cbegin") and is_container(x[4])):
+        return strip_casts(a0[3][0])
+    return None
+
+
+def indexed_equal(conds, is_container, I, value):
+    """do the path conditions contain container[I] == value (operator[] / at, any call id)?"""
+    from .rules.ops import strip_casts
+    unrd = lambda t: t[1] if isinstance(t, tuple) and t[:1] == ("rd",) else t
+    for c in conds:
+        if isinstance(c, tuple) and c[:2] == ("cmp", "=="):
+            for x, y in ((unrd(c[2]), c[3]), (unrd(c[3]), c[2])):
+                if isinstance(x, tuple) and x[:1] == ("ucall",) and short(x[2]) in ("operator[]", "at") and len(x[3]) == 1 and strip_casts(x[3][0]) == I and is_container(x[4]) and y == value:
+                    return True
+    return False
